@@ -1,4 +1,5 @@
 import RbV.Ref.MyersHit
+import RbV.Lemmas.TracebackSound
 /-!
 # C10 — Myers traceback yields valid alignments
 
@@ -50,9 +51,28 @@ theorem accepted_path_cost (eqv : Nat → Nat → Bool) (p t : List Nat) (k : Na
 theorem checkHitRow_eq (eqv : Nat → Nat → Bool) (p t : List Nat) (k : Nat) (h : Hit) :
     checkHitRow (lastRow (unitW eqv) p t) eqv p t k h = checkHit eqv p t k h := rfl
 
+/-- **[B] the traceback rule is sound.**  `Model.MyersTraceback.traceback` applies the decision rule of
+`Traceback::_traceback_at` — test order Subst (diagonal + 1 = current), Ins (upper + 1 = current, the `pv` bit), Del (left
+= diagonal − 1, the `mv` bit of the left column), else Match — to the Sellers matrix.  For every end position it yields a
+start and a path that the acceptance test accepts: the path consumes exactly the pattern and `t[start..stop]`, labels
+Match/Subst correctly and has exactly `D[stop−1]` non-match operations.  (The reconstruction of the three neighbouring
+values from the stored `Pv/Mv` words — `adjust_dist`, `adjust_by_mask`, the ring buffer — is not modelled; that part stays
+sampled.  The driver compares the model's prediction with every path the implementation returns: tag `tb-model-same`.) -/
+theorem traceback_rule_sound (eqv : Nat → Nat → Bool) (p t : List Nat) (k stop : Nat) (h1 : 1 ≤ stop)
+    (hs : stop ≤ t.length) (d : Nat) (hd : (lastRow (unitW eqv) p t)[stop - 1]? = some d) (hk : d ≤ k) :
+    checkHit eqv p t k ⟨(RbV.Model.MyersTraceback.traceback (unitW eqv) p t stop).1, stop, d,
+      (RbV.Model.MyersTraceback.traceback (unitW eqv) p t stop).2⟩ = true := by
+  have hrow := RbV.Model.Ukkonen.lastRow_cell (unitW eqv) p t (stop - 1) (by omega)
+  have e : stop - 1 + 1 = stop := by omega
+  rw [e, hd] at hrow
+  injection hrow with hrow
+  subst hrow
+  exact RbV.Model.MyersTraceback.traceback_checkHit eqv p t k stop h1 hs hk
+
 -- non-vacuity
 example : checkHit eqSym [1, 2, 3] [9, 1, 3, 9] 1 ⟨1, 3, 1, [.mat, .ins, .mat]⟩ = true := by decide
 example : checkHit eqSym [1, 2, 3] [9, 1, 3, 9] 1 ⟨1, 3, 1, [.mat, .sub, .mat]⟩ = false := by decide
 example : checkHit eqSym [1, 2, 3] [9, 1, 3, 9] 1 ⟨0, 3, 2, [.del, .mat, .ins, .mat]⟩ = false := by decide
+example : RbV.Model.MyersTraceback.traceback (unitW eqSym) [1, 2, 3] [9, 1, 3, 9] 3 = (1, [.mat, .ins, .mat]) := by decide
 
 end RbV.Thm.C10
